@@ -1,6 +1,11 @@
 #!/bin/bash
 # usage: check.sh <property-id> [quick|thorough]
 # Analyses /repo's current working tree (nothing under /repo is executed).
+#   quick    : the property's rule set over the loaded, type-checked, SSA-converted module
+#   thorough : the same rule set, then a sensitivity audit - every recorded variant of the
+#              CURRENT source with one rule instance broken (and every behaviour-preserving
+#              rewrite) is analysed through a go/packages overlay; the audit's outcome is
+#              added to the evidence (it never turns into a VIOLATION of the property)
 cd "$(dirname "$0")"
 . ./env.sh
 id=$1; tier=${2:-${VERIF_TIER:-quick}}
@@ -8,4 +13,12 @@ REPO=${VERIF_REPO:-/repo}
 if [ ! -x bin/stsverif ] || [ -n "$(find checker -newer bin/stsverif -name '*.go' 2>/dev/null | head -1)" ]; then
   (cd checker && go build -o ../bin/stsverif .) || { echo "cannot build checker"; exit 1; }
 fi
-exec ./bin/stsverif -repo "$REPO" -prop "$id" -tier "$tier" -evidence "$(pwd)/evidence" -known "$(pwd)/known_findings.json"
+./bin/stsverif -repo "$REPO" -prop "$id" -tier "$tier" -evidence "$(pwd)/evidence" -known "$(pwd)/known_findings.json"
+rc=$?
+if [ "$tier" = thorough ] && [ -f "evidence/$id.json" ]; then
+  tmp=$(mktemp -d /var/tmp/stsverif-audit.XXXXXX)
+  VERIF_REPO="$REPO" python3 selftest/run.py -j ${VERIF_JOBS:-12} --json "$tmp/audit.json" "$id" > "$tmp/audit.log" 2>&1
+  python3 selftest/merge_audit.py "evidence/$id.json" "$tmp/audit.json" "$id"
+  rm -rf "$tmp"
+fi
+exit $rc
